@@ -12,6 +12,7 @@ import (
 	"os"
 	"strconv"
 	"strings"
+	"syscall"
 	"time"
 
 	vrt "verif/rt"
@@ -92,6 +93,25 @@ type listener struct {
 	port    int
 	backlog []*conn
 	closed  bool
+}
+
+// ListenConfig stands in for net.ListenConfig: socket options (Control) have no counterpart in the model - in
+// particular an SO_REUSEPORT listener still cannot share a port here, which the real-socket part of C17 covers.
+type ListenConfig struct {
+	Control   func(network, address string, c syscall.RawConn) error
+	KeepAlive time.Duration
+}
+
+func (lc *ListenConfig) Listen(ctx context.Context, network, address string) (net.Listener, error) {
+	return Listen(network, address)
+}
+
+// ListenTCP stands in for net.ListenTCP.
+func ListenTCP(network string, laddr *net.TCPAddr) (net.Listener, error) {
+	if laddr == nil {
+		return Listen(network, ":0")
+	}
+	return Listen(network, laddr.String())
 }
 
 func Listen(network, address string) (net.Listener, error) {
